@@ -18,6 +18,7 @@ from vx.units.rlabels import add_reader_labels
 from vx.units.rbranch import add_branch_helpers
 
 PROPS = ['C01']
+RLIMIT = 50
 R = 'duke/src/class_reader.rs'
 CODE = 'duke/src/tree/method/code.rs'
 
